@@ -146,6 +146,8 @@ def render(tree, layout: Layout = None, mandatory=SEPS, optional=OPTIONAL_GAP):
 
     def tok(t):
         ntok[0] += 1
+        if not t.isascii():       # upper-casing is not invertible outside ASCII (\u00df -> SS): left as written
+            return t
         if layout.case_mode == 1:
             return t.upper()
         if layout.case_mode == 2:
